@@ -9,7 +9,7 @@
    StRunCtxEnded c o (context already ended AND timer due; the runtime picked the timer). *)
 From Coq Require Import ZArith List Bool.
 From LLRP Require Import Retry.NextWait Retry.NextWaitProofs Retry.RetryLoop Retry.RetryLoopProofs.
-From LLRP Require GoFn.IR Retry.NextWaitTie.
+From LLRP Require GoFn.IR Retry.NextWaitTie Retry.Relabel.
 Import ListNotations.
 Open Scope Z_scope.
 
@@ -335,6 +335,32 @@ Example C18_example_limit_past_63 :
     [63; 64; 65; 70; 100; 121]%nat /\
   exists fe, res (retry_run 64 2 None (Rec 0%nat) hist) = RetErr fe /\ main fe = ERetriesExceeded.
 Proof. vm_compute. split; [reflexivity|]. eexists. split; reflexivity. Qed.
+
+(* ================================================================== failure values
+
+   Whether the operation is re-run is decided by the bool it returns, the limit and the context —
+   never by the VALUE of the failure.  Renaming the failure values of a history by ANY function
+   (also a non-injective one: every failure becomes one and the same value, e.g. the
+   context.DeadlineExceeded of some other context) renames the result and changes nothing else. *)
+Theorem C18_failure_values_do_not_matter : forall (f : nat -> nat) retries keep pre first steps,
+  retry_run retries keep pre (Relabel.rl_out f first) (map (Relabel.rl_step f) steps) =
+  Relabel.rl_res f (retry_run retries keep pre first steps).
+Proof. exact Relabel.retry_run_relabel. Qed.
+Print Assumptions C18_failure_values_do_not_matter.
+
+Theorem C18_failure_values_same_runs : forall (f : nat -> nat) retries keep pre first steps,
+  runs (retry_run retries keep pre (Relabel.rl_out f first) (map (Relabel.rl_step f) steps)) =
+  runs (retry_run retries keep pre first steps) /\
+  map is_rec (ran (retry_run retries keep pre (Relabel.rl_out f first) (map (Relabel.rl_step f) steps))) =
+  map is_rec (ran (retry_run retries keep pre first steps)).
+Proof. exact Relabel.relabel_same_runs. Qed.
+Print Assumptions C18_failure_values_same_runs.
+
+Example C18_example_all_failures_one_value :
+  let steps := [StRun (Rec 1); StRun (Rec 2); StRun (Fatal 3); StRun Ok] in
+  runs (retry_run 7 2 None (Rec 0) steps) = 4%nat /\
+  runs (retry_run 7 2 None (Relabel.rl_out (fun _ => 9%nat) (Rec 0)) (map (Relabel.rl_step (fun _ => 9%nat)) steps)) = 4%nat.
+Proof. vm_compute. split; reflexivity. Qed.
 
 (* ================================================================== the code (Way 1)
 
